@@ -2,28 +2,34 @@
 use super::*;
 use crate::vklib::*;
 
-/// a frame header with every field symbolic (byte count, magic, both chunk counts, duration) followed by nothing:
-/// parse_frame returns a value (never panics), whatever the byte count and chunk counts claim
+/// an empty frame whose byte-count field is arbitrary (0 ..= 2^32-1, in particular below the 16 header bytes) and
+/// whose duration / reserved fields are symbolic: parse_frame returns Ok (never panics); a wrong magic is an error
 #[kani::proof]
 #[kani::unwind(4)]
 #[kani::stub(alloc::fmt::format, crate::vklib::empty_format)]
 #[kani::stub(std::hash::RandomState::new, crate::vklib::fixed_random_state)]
-fn c04_q_frame_header_any() {
-    let h: [u8; 16] = kani::any();
+fn c04_q_frame_header_any_byte_count() {
+    let mut h: [u8; 16] = kani::any();
+    h[6] = 0; // old chunk count 0
+    h[7] = 0;
+    h[12] = 0; // new chunk count 0
+    h[13] = 0;
+    h[14] = 0;
+    h[15] = 0;
+    let magic_ok: bool = kani::any();
+    if magic_ok {
+        h[4] = 0xFA;
+        h[5] = 0xF1;
+    } else {
+        h[4] = 0;
+    }
     let mut reader = AseReader::with(&h[..]);
     let mut info = ParseInfo::new(1, 100);
     let r = parse_frame(&mut reader, 0, PixelFormat::Rgba, &mut info);
-    let nbytes = rd32(&h, 0);
-    let nchunks = if rd32(&h, 12) == 0 { rd16(&h, 6) as u32 } else { rd32(&h, 12) };
-    if rd16(&h, 4) == 0xF1FA && nchunks == 0 {
-        assert!(r.is_ok(), "an empty frame loads whatever its byte-count field says");
-    }
-    if nchunks > 0 {
-        assert!(r.is_err(), "declared chunks that are not there are an error value");
-    }
-    kani::cover!(nbytes == 0 && r.is_ok());
-    kani::cover!(nbytes == 15 && nchunks == 1);
-    kani::cover!(rd16(&h, 4) != 0xF1FA);
+    assert!(r.is_ok() == magic_ok, "an empty frame loads whatever its byte-count field says; a wrong magic is an error value");
+    kani::cover!(rd32(&h, 0) == 0 && r.is_ok());
+    kani::cover!(rd32(&h, 0) == 15);
+    kani::cover!(!magic_ok);
     core::mem::forget(r);
     core::mem::forget(info);
 }
@@ -49,3 +55,4 @@ fn c04_q_chunk_header_any() {
     kani::cover!(size == 5);
     core::mem::forget(r);
 }
+
